@@ -12,14 +12,14 @@ import (
 // Map is an insertion-ordered association list with an index for fully concrete keys.
 // Keys that contain symbolic parts are found by linear scan with forking equality.
 type Map struct {
-	keys   []Value
-	vals   []Value
-	dead   []bool
-	idx    map[interface{}]int
-	nlive  int
-	nsym   int // live symbolic keys
-	tKey   types.Type
-	id     int
+	keys  []Value
+	vals  []Value
+	dead  []bool
+	idx   map[interface{}]int
+	nlive int
+	nsym  int // live symbolic keys
+	tKey  types.Type
+	id    int
 }
 
 func newMap(tKey types.Type) *Map {
